@@ -935,5 +935,7 @@ def run(ctx):
     ctx.do(r10_5)
     ctx.do(r10_7)
     ctx.do(r10_8)
+    from . import c01
+    ctx.do(c01.r1_5)
     for k, v in DISJOINT_EDGES.items():
         ctx.trust(f"frozen instance-disjoint lock edge {k[0]}->{k[1]} in {k[2]}: {v}")
